@@ -234,3 +234,21 @@ Proof.
   - rewrite IH. reflexivity.
   - rewrite IH. destruct (negb (n2 - p_time p >? ma)) eqn:E2; [lia|reflexivity].
 Qed.
+
+(* the second run function (dynamic subscriptions) produces exactly the requests of the
+   underlying pstep sequence: subscriptions never influence a request *)
+Definition strip (h : list pevent2) : list pevent :=
+  flat_map (fun x => match x with PE e => [e] | PSub _ _ => [] end) h.
+
+Fixpoint somes {A} (l : list (option A)) : list A :=
+  match l with [] => [] | Some x :: t => x :: somes t | None :: t => somes t end.
+
+Lemma prun2_requests ma1 ma2 h : forall sb st,
+  somes (map fst (prun2 ma1 ma2 sb st h)) = map snd (requests ma1 ma2 st (strip h)).
+Proof.
+  induction h as [|x h IH]; intros sb st; cbn [prun2 strip flat_map map somes requests]; [reflexivity|].
+  destruct x as [e|is_op q].
+  - cbn [app requests]. destruct (pstep ma1 ma2 st e) as [[st' r] rep] eqn:E.
+    cbn [map fst somes]. rewrite map_app. destruct r as [v|]; cbn [somes map snd app]; rewrite IH; reflexivity.
+  - cbn [map fst somes app]. apply IH.
+Qed.
